@@ -268,13 +268,10 @@ def rule_data(ctx, p: Project, K: KEval):
     ok = len(calls) == 1 and len(loops) == 1 and norm_text(loops[0].iter) == "enumerate(self.linear_obj_list)"
     if ok:
         iv, ov = [norm_text(x) for x in loops[0].target.elts]
-        kw = wire.kwtext(calls[0])
-        rec = [n for n in loops[0].body if isinstance(n, ast.Assign) and norm_text(n.targets[0]) == "reconstruction"]
-        ok = kw.get("mapping_matrix") == f"operated_mapping_matrix_list[{iv}]" and kw.get("reconstruction") == "reconstruction" and len(rec) == 1 and norm_text(rec[0].value) == f"reconstruction_dict[{ov}]"
+        kw = wire.kwr(m, calls[0])   # name-free: the per-iteration temporaries and the two tables are inlined
+        ok = kw.get("mapping_matrix") == f"self.operated_mapping_matrix_list[{iv}]" and kw.get("reconstruction") == f"self.source_quantity_dict_from(source_quantity=self.reconstruction)[{ov}]"
         st = [n for n in loops[0].body if isinstance(n, ast.Assign) and norm_text(n.targets[0]) == f"mapped_reconstructed_data_dict[{ov}]"]
         ok = ok and len(st) == 1
-        srcs = {norm_text(n.targets[0]): norm_text(n.value).replace(" ", "") for n in m.node.body if isinstance(n, ast.Assign)}
-        ok = ok and srcs.get("reconstruction_dict") == "self.source_quantity_dict_from(source_quantity=self.reconstruction)" and srcs.get("operated_mapping_matrix_list") == "self.operated_mapping_matrix_list"
     ctx.ob(rule, m.key, ok, where=m, node=calls[0] if calls else m.node, construct="M_list[index] x reconstruction_dict[linear_obj], stored under linear_obj",
            message="the model data of object k must be its own operated mapping matrix times its own slice of the reconstruction")
     w = p.func("autoarray.inversion.inversion.imaging.w_tilde:InversionImagingWTilde.mapped_reconstructed_data_dict")
